@@ -103,7 +103,7 @@ class Ctx:
             status = 2
         for k, rec in self.known_hits:
             out_lines.append("KNOWN-FINDING: property=%s %s %s -- %s" % (self.prop, rec["rule"], rec["site"], k.get("what", rec["detail"])))
-        if error is None:
+        if True:
             rdir = os.path.join(EVIDENCE_DIR, "replay")
             for i, v in enumerate(self.violations):
                 rp = os.path.join(rdir, "%s.%s.%d.json" % (self.prop, v["rule"].split(".")[-1], i))
